@@ -24,10 +24,10 @@ import (
 )
 
 type DLinkS struct {
-	Name     *string
-	Tsize    *int64
-	Cid      cid.Cid
-	Target   *DNode // nil when the target is not in the store (opaque / Ext)
+	Name   *string
+	Tsize  *int64
+	Cid    cid.Cid
+	Target *DNode // nil when the target is not in the store (opaque / Ext)
 }
 
 type DNode struct {
